@@ -167,6 +167,14 @@ inline void start_scheduler(const Case& c, uint64_t est_steps = 20000,
   gsched_start(&cfg);
 }
 
+// uniform integer in [lo, hi): rapidcheck's inRange scales with the test size
+// and collapses towards lo for the first cases; configuration choices must
+// not, so they are drawn at full size (shrinking towards lo still works)
+template <typename T>
+rc::Gen<T> uni(T lo, T hi) {
+  return rc::gen::resize(100, rc::gen::inRange<T>(lo, hi));
+}
+
 // generator for the common schedule fields (inside gen::exec)
 inline void gen_schedule(Case& c) {
   using namespace rc;
@@ -175,12 +183,12 @@ inline void gen_schedule(Case& c) {
   if (strat == 0)
     c[S_PARAM] = *gen::element<int>(2, 3, 4, 8, 16, 32, 64);
   else if (strat == 1)
-    c[S_PARAM] = *gen::inRange(1, 6);
+    c[S_PARAM] = *uni(1, 6);
   else
     c[S_PARAM] = *gen::element<int>(1, 2, 3, 5, 17);
   c[S_PLAIN]    = *gen::weightedElement<int>({{5, 0}, {2, 64}, {2, 8}});
   c[S_SPURIOUS] = *gen::weightedElement<int>({{3, 0}, {1, 1}});
-  c[S_SEED]     = *gen::noShrink(gen::inRange<int64_t>(1, 1LL << 40));
+  c[S_SEED]     = *gen::noShrink(uni<int64_t>(1, 1LL << 40));
 }
 
 // known-finding exclusion (VERIF_EXCLUDE="key1,key2")
@@ -436,7 +444,7 @@ inline void ensure_no_aslr(char** argv) {
 inline int e1_main(int argc, char** argv) {
   ensure_no_aslr(argv);
   std::string mode, out, replay, rdir = ".", tag = "w0";
-  int times = 1;
+  int times = 1, sweep = 1;
   for (int i = 1; i < argc; ++i) {
     std::string a = argv[i];
     if (a == "--gen")
@@ -448,6 +456,8 @@ inline int e1_main(int argc, char** argv) {
       out = argv[++i];
     else if (a == "--times" && i + 1 < argc)
       times = atoi(argv[++i]);
+    else if (a == "--sweep" && i + 1 < argc)
+      sweep = atoi(argv[++i]);
     else if (a == "--replay-dir" && i + 1 < argc)
       rdir = argv[++i];
     else if (a == "--tag" && i + 1 < argc)
@@ -463,7 +473,15 @@ inline int e1_main(int argc, char** argv) {
     }
     int fails = 0, inconc = 0;
     std::string lastkey, lastmsg;
+    // --sweep N: the saved schedule seed only reproduces on an identical
+    // binary; a regression replay therefore also tries the N-1 following
+    // schedule seeds of the same case and counts how many fail
+    Case base = c;
+    times *= sweep;
     for (int i = 0; i < times; ++i) {
+      c         = base;
+      if (c.f.size() > (size_t)S_SEED)
+        c[S_SEED] += i % sweep;
       Outcome o = run_in_child(c);
       if (o.status == "FAIL") {
         ++fails;
